@@ -295,7 +295,7 @@ func corsJob(raw json.RawMessage) (any, error) {
 		h := o.Header
 		acao, hasACAO := h.Get("Access-Control-Allow-Origin"), len(h.Values("Access-Control-Allow-Origin")) > 0
 		cred := h.Get("Access-Control-Allow-Credentials")
-		outc[fmt.Sprintf("%d/%v/%s", o.Status, hasACAO, cred)] = struct{}{}
+		outc[fmt.Sprintf("%d/acao=%v/cred=%s/pf=%v/methods=%v/maxage=%s/vary=%d", o.Status, hasACAO, cred, q.Method == "OPTIONS" && q.ACRM != "", h.Get("Access-Control-Allow-Methods") != "", h.Get("Access-Control-Max-Age"), len(h.Values("Vary")))] = struct{}{}
 		listed := q.HasOrigin && contains(c.Origins, q.Origin) && q.Origin != "*"
 		route := t.Routes[q.Path]
 		served := route != nil && o.Status != 404 && o.Status != 405 && contains(t.Allow(q.Path), q.Method)
